@@ -619,8 +619,9 @@ Proof.
     cbn [step notified op_hyp] in *.
   11: discriminate.
   10: { (* AddTrait *)
-    apply andb_true_iff in Hyp. destruct Hyp as [Hyp W]. apply andb_true_iff in Hyp. destruct Hyp as [Nt Nv].
-    apply negb_true_iff in Nt. rewrite Nt.
+    destruct (st_traits st x f) eqn:Nt.
+    { cbn. split; [exact Hinv|]. split; reflexivity. }
+    cbn [orb] in Hyp. apply andb_true_iff in Hyp. destruct Hyp as [Nv W].
     assert (st_heap st x f = []) as Nv' by (destruct (st_heap st x f); [reflexivity|discriminate]).
     destruct (added_loop_spec (add_trait (st_traits st) x f) (st_heap st) x f Nv'
                 (on_slot (st_hooks st) x TA) [] (st_hooks st)) as [ks [E [ND Sp]]].
@@ -879,8 +880,11 @@ Proof.
     cbn [step op_hyp] in *.
   11: discriminate.
   10: { (* AddTrait *)
-    apply andb_true_iff in Hyp. destruct Hyp as [Hyp W]. apply andb_true_iff in Hyp. destruct Hyp as [Nt Nv].
-    apply negb_true_iff in Nt. rewrite Nt.
+    destruct (st_traits st x f) eqn:Nt.
+    { cbn [quiet fst snd ob_delta apply_delta fold_left law_regs law_traits ob_out]. rewrite Nt.
+      split; [|split; [reflexivity|split; reflexivity]].
+      apply (quiet_law st _ x TA); [reflexivity|]. cbn [classify]. rewrite Nt. discriminate. }
+    cbn [orb] in Hyp. apply andb_true_iff in Hyp. destruct Hyp as [Nv W].
     assert (st_heap st x f = []) as Nv' by (destruct (st_heap st x f); [reflexivity|discriminate]).
     destruct (added_loop_spec (add_trait (st_traits st) x f) (st_heap st) x f Nv'
                 (on_slot (st_hooks st) x TA) [] (st_hooks st)) as [ks [E [ND Sp]]].
